@@ -2,6 +2,7 @@
 """Regenerates MANIFEST.json from the table below (kept in one place so the manifest stays valid)."""
 import json
 CLAIMED = {
+ "C18": ("theorems C18_getter_layout / C18_setter_layout (every one of the 29 declared fields reads / writes exactly the documented bit positions, for every raw buffer and every value, the 16/32-bit fields by induction over the chunked bit loop), read-after-write = value truncated to the width, every other field of the struct preserved, the two validators as boolean closed forms, and the oracle over all histories; correspondence: exhaustive raw values for 1-byte views, patterns + random for wider ones, all written values", "§6 C18"),
  "C09": ("theorems C09_decoder_exact (decode_packet = spec_decode, a flat decision procedure on the bytes, for every byte string outside the panic classes), C09_decoder_panics_iff (exact characterisation of the panic classes), C09_accept_iff_wellformed (accept <-> wf_packet, the property's own well-formedness predicate) and C09_oracle_holds_on_model (payload range, truthful errors); context independence: the model's decoder has no context argument, the correspondence decodes every case on a second context with another address/configuration/history", "§6 C09"),
  "C04": ("theorems C04_oracle_holds_on_model (every well-formed history: framing bytes, byte count, 4<=n<=259, probe on every prefix, oversize refused), C04_generate_fits / C04_generate_oversize_refused (closed form of the packet generators for all inputs); correspondence on all encoders, the 128x128 address grid, body sizes 10..300", "§6 C04"),
  "C05": ("theorems C05_oracle_holds_on_model (bytes 4-8 of every encoded packet in every history) + closed forms of the transport and body headers for all 256x256 (source, destination) / all types; correspondence on all encoders and the header helper", "§6 C05"),
